@@ -237,7 +237,7 @@ pub fn child_main(seed: u64, n: usize, threads: usize) -> i32 {
 }
 
 /// State carried from one build to the next on the same thread: the same batch is built on three fresh
-/// threads in forward, reverse and interleaved order; every case must give the same result each time.
+/// threads in forward, reverse and six shuffled orders; every case must give the same result each time.
 fn build_order_independence(ctx: &Ctx, st: &mut Stats) {
     let mut cases: Vec<(Vec<String>, Settings)> = batch(ctx.seed() ^ 0x55, if ctx.thorough { 4000 } else { 600 });
     for set in gen::shifted_run_sets() {
@@ -245,7 +245,12 @@ fn build_order_independence(ctx: &Ctx, st: &mut Stats) {
         cases.push((set, Settings::new(ESC)));
     }
     let n = cases.len();
-    let orders: Vec<Vec<usize>> = vec![(0..n).collect(), (0..n).rev().collect(), (0..n).map(|i| (i * 7919) % n).collect::<std::collections::BTreeSet<_>>().into_iter().rev().step_by(1).collect()];
+    let mut orders: Vec<Vec<usize>> = vec![(0..n).collect(), (0..n).rev().collect()];
+    for k in 0..6 {
+        let mut o: Vec<usize> = (0..n).collect();
+        Rng::new(ctx.seed(), 0x106_0000 + k).shuffle(&mut o);
+        orders.push(o);
+    }
     let mut results: Vec<Vec<String>> = vec![];
     for order in &orders {
         let cases = &cases;
